@@ -161,6 +161,7 @@ def cmpLine (e : AExpr) (args : List String) (answers : List Bool) : Option (Str
     ((if t then "done" else if ok then "true" else "false"), callsStr c, trackStr tr)
   let mk (a c s al : String) : Req := if a = "1" then Req.array (nat! c) (nat! s) (nat! al) else Req.node (nat! s) (nat! al)
   match args with
+  | ["maxima"] => some ((maxima harnessLeafMaxima e).str, "", "")
   | ["alloc", a, c, s, al] => some (doAlloc true (mk a c s al))
   | ["try_alloc", a, c, s, al] => some (doAlloc false (mk a c s al))
   | "dealloc" :: a :: c :: s :: al :: rest => some (doDealloc true (mk a c s al) (owner rest))
